@@ -280,10 +280,11 @@ class Executor(Exec):
                     continue
             self.exec_block(s.orelse, env, ctx)
             return
+        self._promote_lists(env, s.body)
         old = self._loop_ns(env, {})._asdict()
         old.pop("old", None)
         old.pop("a", None)
-        old = {n: (v.copy() if hasattr(v, "copy") and not isinstance(v, (dict, list, set)) else v) for n, v in old.items()}
+        old = {n: (v.copy() if isinstance(v, (AList, ADict, ASet)) else v) for n, v in old.items()}
         L = self._loop_ns(env, old)
         self.oblige(f"loop{k}.establish", spec.inv(L), "loop-establish")
         for name in sorted(self._assigned_names(s.body)):
@@ -307,6 +308,18 @@ class Executor(Exec):
                 self.oblige(f"loop{k}.variant", ops.And(v0 >= 0, v1 < v0), "loop-variant")
             raise PathEnd()
         self.exec_block(s.orelse, env, ctx)
+
+    def _promote_lists(self, env, body):
+        """Concrete lists of scalars that the loop body modifies become (length, array) lists."""
+        for name in sorted(self._assigned_names(body)):
+            if env.has(name):
+                v = env.lookup(name)
+                if isinstance(v, list) and all(_scalar(x) for x in v):
+                    srt = lift(v[0]).sort() if v else z3.IntSort()
+                    arr = z3.K(z3.IntSort(), lift(v[0])) if v else z3.Array(fresh_name(name + "#arr"), z3.IntSort(), srt)
+                    for i, x in enumerate(v):
+                        arr = z3.Store(arr, i, lift(x))
+                    self._set_existing(env, name, AList(z3.IntVal(len(v)), arr, srt))
 
     def _set_existing(self, env, name, value):
         e = env
@@ -345,10 +358,11 @@ class Executor(Exec):
         self.exec_block(s.orelse, env, ctx)
 
     def _for_cut(self, s, env, ctx, spec, k, n, at):
+        self._promote_lists(env, s.body)
         old = self._loop_ns(env, {})._asdict()
         old.pop("old", None)
         old.pop("a", None)
-        old = {nm: (v.copy() if hasattr(v, "copy") and not isinstance(v, (dict, list, set)) else v) for nm, v in old.items()}
+        old = {nm: (v.copy() if isinstance(v, (AList, ADict, ASet)) else v) for nm, v in old.items()}
         L = self._loop_ns(env, old, {"idx": z3.IntVal(0), "n": n})
         self.oblige(f"loop{k}.establish", spec.inv(L), "loop-establish")
         for name in sorted(self._assigned_names(s.body)):
